@@ -736,6 +736,9 @@ impl World {
             all.push(Ev::Stop);
         }
         all.extend(opts);
+        if std::env::var_os("MC_SHOW_OPTIONS").is_some() {
+            self.log.push(Rec::S("options", format!("{all:?}")));
+        }
         let k = self.ch.borrow_mut().choose("step", all.len());
         let ev = all[k].clone();
         if ev == Ev::Stop {
